@@ -13,6 +13,11 @@
 (* is a glyph prefix of the original, unchanged when the whole message fits, and    *)
 (* the responder is enabled whenever the identity alone fits.                       *)
 (* Part L (receive loop): two-state machine alive / dead over datagram classes.     *)
+(* Survival and "one answer per request" do not depend on the size or content of    *)
+(* earlier datagrams.  A datagram larger than the receive buffer is seen by the     *)
+(* responder as its first bufsize bytes (classes oversized*); "deep" / "oversized_  *)
+(* deep" are datagrams of hundreds to thousands of nested JSON arrays / objects,    *)
+(* which a recursive decoder refuses with an error that is not a syntax error.      *)
 EXTENDS Integers, Sequences, FiniteSets, FiniteSetsExt, SequencesExt, TLC, IOUtils
 
 CONSTANTS O,            \* identity overhead used by the state machine
